@@ -17,6 +17,7 @@ import (
 func init() { properties["C20"] = propC20 }
 
 func propC20(w *World, r *Report) {
+	RunInstallAll(w, r)
 	e := NewEffects(w)
 	runDet(w, r, e, "C20")
 	r.Rule("nameslots/used: every non-constant name stored into a glyph-name slot after the used-set exists is either the result of a variant helper that records the name it returns, or is stored under a negative membership test of the used-set and recorded in it on the same path || nameslots/once: every such store is control-dependent on a test that the same slot is empty || nameslots/notdef: slot 0 is set to .notdef before the used-set is built || nameslots/variant: the variant helper records every name it returns || nameslots/fallback: a numbered-placeholder store exists for the remaining empty slots || psname: the PostScript name returned is directly the result of removing, from the complete family+subfamily string, every character outside the PostScript-name alphabet (regexp literal parsed and checked)")
